@@ -454,6 +454,12 @@ class PartialOps:
                     pattern = getattr(pv, "pattern", None)
                     if isinstance(pattern, str):
                         bad = self._try_convert(fname, regexast.shapes(regexast.parse(pattern)), False)
+                        if bad:
+                            classes = sorted({c for c, _ in bad})
+                            wit = "; ".join(f"{w!r} -> {c}" for c, w in bad[:3])
+                            out.append(PSite(fn, node, "CONV", classes,
+                                             note=f"guarded by {pat_expr}.{how}(), whose language still contains {wit}"))
+                            return
                         if not bad:
                             out.append(PSite(fn, node, "CONV", [], discharged=f"dominated by {pat_expr}.{how}() whose language converts"))
                             return
@@ -490,8 +496,11 @@ class PartialOps:
             while i > 0 and s[i - 1].isdigit():
                 i -= 1
             if i < len(s):
+                # 400 digits overflow a float; more than 4300 digits exceed CPython's
+                # limit for str -> int conversion (ValueError)
                 extreme.append(s[:i] + "9" * 400)
-        for s in list(shapes) + extreme[:50]:
+                extreme.append(s[:i] + "9" * 5000)
+        for s in list(shapes) + extreme[:60]:
             try:
                 if inner_float:
                     int(float(s))
@@ -522,7 +531,8 @@ class PartialOps:
                 return
         except NotConst:
             pass
-        out.append(PSite(fn, node, "REGEX", ["re.error"], note="pattern is not a constant"))
+        # re raises OverflowError for an oversized repetition count (`a{99999999999999}`)
+        out.append(PSite(fn, node, "REGEX", ["re.error", "OverflowError"], note="pattern is not a constant"))
         # string argument of re.fullmatch/search(pattern, string)
         if len(node.args) >= 2 and not (isinstance(node.func, ast.Attribute) and node.func.attr == "compile"):
             names = self._tynames(fn, node.args[1])
